@@ -60,52 +60,36 @@ def classify_wait(cfg, stim, pi, k, bank_index, t0, t1, backend="fast"):
 
 
 def classify_data_wait(cfg, stim, bank_index, we, t0, t1, backend="fast"):
-    """re-run with a probe on the victim's bank machine, the other bank machines and the multiplexer FSM: did the multiplexer go through
-    at least 8 separate windows of the victim's direction in which the victim's request was valid for the whole window, was not chosen,
-    and the window was spent on another bank's request of that direction?  (Refresh sequences and the row re-opening after them may lie
-    in between: the request is then withdrawn by the bank machine itself.)"""
+    """re-run with a probe on every bank machine's request and the multiplexer: is this the listed round-robin defect?
+    Signature: while the victim bank machine presented its request of that direction WITHOUT INTERRUPTION (valid, right direction, not
+    accepted), some other bank machine had a request of the same direction accepted TWICE.  A fair round-robin chooser cannot serve a
+    bank a second time while another requester has been waiting since before its first service.  (Refresh sequences withdraw the
+    victim's request and so simply restart the observation.)"""
     rec = []
 
     def probe(dut, sim, t):
-        if t0 + (t1 - t0) // 4 <= t <= t1:      # the command may first have to reach the head of its bank's queue
+        if t0 <= t <= t1:
             bm = dut.bank_machines[bank_index]
-            mux = dut.multiplexer
-            other = 0
+            others = []
             for i, b in enumerate(dut.bank_machines):
                 if i != bank_index and sim.get(b.cmd.valid) and sim.get(b.cmd.ready) and sim.get(b.cmd.is_write if we else b.cmd.is_read):
-                    other = 1
-                    break
-            rec.append((sim.get(bm.cmd.valid), sim.get(bm.cmd.is_write), sim.get(bm.cmd.is_read), sim.get(bm.cmd.ready), sim.get(mux.fsm.state), other))
-    r = cc.run_core(cfg, stim, backend=backend, max_cycles=t1 + 2, tail=10**9, probe=probe)
-    if len(rec) < 100:
-        return "data"
-    enc = r.dut.multiplexer.fsm.encoding
-    want = enc["WRITE"] if we else enc["READ"]
-    windows = 0           # windows of the wanted direction with the request present throughout, not chosen, another bank served
-    chosen = False
-    i = 0
-    while i < len(rec):
-        if rec[i][4] != want:
-            i += 1
-            continue
-        j = i
-        present, served = True, False
-        while j < len(rec) and rec[j][4] == want:
-            v, w, rd, rdy, stt, other = rec[j]
-            if not (v and (w if we else rd)):
-                present = False
-            elif rdy:
-                chosen = True
-            served = served or bool(other)
-            j += 1
-        if present and served:
-            windows += 1
-        i = j
-    # a fair round-robin chooser reaches every bank machine within one round, i.e. a request is passed over in fewer windows than there are
-    # bank machines; twice that number of windows without being chosen (while others were) is the listed defect, whether or not an
-    # EARLIER command of the same bank queue was chosen inside the interval
-    nbm = len(r.dut.bank_machines)
-    if windows >= max(8, 2 * nbm):
+                    others.append(i)
+            rec.append((sim.get(bm.cmd.valid) and sim.get(bm.cmd.is_write if we else bm.cmd.is_read), sim.get(bm.cmd.ready), others))
+    cc.run_core(cfg, stim, backend=backend, max_cycles=t1 + 2, tail=10**9, probe=probe)
+    since = None          # index from which the victim's request has been continuously present and not accepted
+    last = {}             # other bank -> index of its last accepted request of that direction
+    twice = 0
+    for j, (present, ready, others) in enumerate(rec):
+        if present and not ready:
+            if since is None:
+                since = j
+        else:
+            since = None
+        for x in others:
+            if since is not None and x in last and last[x] >= since:
+                twice += 1
+            last[x] = j
+    if twice >= 2:
         return "request_valid_never_chosen_while_direction_served_%s" % ("8+_times")
     return "data"
 
